@@ -133,6 +133,8 @@ int iv_inotify_register(struct iv_inotify *this)
 
 	INIT_IV_AVL_TREE(&this->watches, __iv_inotify_watch_compare);
 
+	this->term = NULL;
+
 	return 0;
 }
 
